@@ -47,6 +47,23 @@ def canon_class():
 
 def aliased_class(Canon, aliases, preferred):
     from fsic.extensions import AliasMixin
+    k0, v0 = next(iter(aliases.items())) if aliases else (None, None)
+    if len(aliases) >= 2 and k0 != v0 and sum(map(len, aliases)) % 3 == 0 and not any(resolve(aliases, a) is None for a in aliases):
+        # the class under test extends the alias map of a parent alias class that has already been instantiated: each class
+        # follows its own ALIASES
+        first = dict(list(aliases.items())[:1])
+
+        class P(AliasMixin, Canon):
+            ALIASES = first
+        try:
+            P(range(2000, 2003))
+        except Exception:
+            pass
+
+        class A(P):
+            ALIASES = dict(aliases)
+            PREFERRED_NAMES = list(preferred)
+        return A
 
     class A(AliasMixin, Canon):
         ALIASES = dict(aliases)
